@@ -66,7 +66,7 @@ FILTERS = [{"a": 1}, {"b": "x"}, {"a": {"$exists": True}}, {"b": {"$exists": Fal
 
 class Engine(EngineBase):
     def budget(self, tier):
-        return (900, 50.0) if tier == "quick" else (40000, 900.0)
+        return (2700, 55.0) if tier == "quick" else (70000, 900.0)
 
     def rule(self):
         return ("seeded histories (<= 40 steps) of init / remove / re-key / update_cache / restart / delete "
